@@ -522,6 +522,13 @@ func (g *Gen) verifyFunc(ct *Contract) (fg *FnGen, err error) {
 			Goal: False, ExpectSat: true, Props: ct.Props, ct: ct, fg: fg}
 		fg.obls = append(fg.obls, o)
 	}
+	// every fact collected while walking the function (callee posts, assert-then-assume, abstractions) taken together
+	// must not be refutable: a contradiction there would discharge every obligation of the function vacuously
+	if len(fg.obls) > 0 {
+		o := &Obligation{Name: fg.name + "#vacuity:facts", Fn: fg.name, Kind: "vacuity", Assumes: append([]*Term{}, fg.assumes...),
+			Goal: False, ExpectSat: true, Props: ct.Props, ct: ct, fg: fg}
+		fg.obls = append(fg.obls, o)
+	}
 	return fg, nil
 }
 
@@ -1112,7 +1119,21 @@ func cmdCheck(args []string) int {
 			info["abstractions"] = ns
 		}
 		fnInfo = append(fnInfo, info)
-		obls = append(obls, fg.obls...)
+		for _, o := range fg.obls {
+			// an obligation re-tagged to other properties (option monitor_props) is not part of this property's check
+			if len(o.Props) > 0 && prop != "" {
+				keep := false
+				for _, p := range o.Props {
+					if p == prop {
+						keep = true
+					}
+				}
+				if !keep {
+					continue
+				}
+			}
+			obls = append(obls, o)
+		}
 	}
 	genS := time.Since(start).Seconds() - loadS
 	// solve in parallel
